@@ -152,6 +152,7 @@ func init() {
 			func(s *e1.Stats) bool { return s.MaxMembers >= 3 && len(s.ClassesChanged) >= 3 && s.ViewCompares > 0 })
 		partConcurrent(c, a, "C01")
 		partStepThrough(c, a, []string{"join", "switch", "leave", "delete", "compadd-vs-delete", "compadd-vs-leave", "action-vs-delete", "action-vs-leave"})
+		partStepPairs(c, a, [][2]string{{"leave", "join2"}, {"join", "leave2"}, {"join", "join2"}, {"delete", "join2"}})
 		partGated(c, a, []func(*sut.Proc) *e2.Result{e2.G6SameKeyActionWriters, e2.G5SameKeyComponentWriters, e2.G4ModuleStateRace}, 1)
 		return a.finish(c)
 	}
@@ -168,6 +169,7 @@ func init() {
 			})
 		partConcurrent(c, a, "C02")
 		partStepThrough(c, a, []string{"join", "leave", "delete"})
+		partStepPairs(c, a, [][2]string{{"leave", "join2"}, {"join", "leave2"}, {"leave", "leave2"}})
 		partLagging(c, a)
 		return a.finish(c)
 	}
